@@ -34,7 +34,7 @@ EmptyF == [x \in {} |-> 0]
 Init0 == [
   tr       |-> "none",
   cfg      |-> [refresh |-> "auto", pop |-> FALSE, q |-> 0, notifier |-> FALSE, width |-> 0, delay |-> FALSE,
-                outfault |-> 0, ctx |-> FALSE, autotoo |-> FALSE],
+                outfault |-> 0, ctx |-> FALSE, autotoo |-> FALSE, narrow |-> FALSE],
   family   |-> "",
   bars     |-> EmptyF,   \* name -> what the client asked for and what Add returned
   created  |-> <<>>,     \* bars in creation order (the default priority)
@@ -56,6 +56,8 @@ Init0 == [
   abortsU  |-> EmptyF,   \* ... of those that returned after a cancellation / Shutdown was requested: the bar may already have
                          \*     been aborted by its context, in which case the call had no effect
   prioAt   |-> EmptyF,   \* bar -> seq of the latest priority change that returned
+  prioInv  |-> EmptyF,   \* <<client, index>> of a priority change in flight -> seq of its invocation
+  prioCalls |-> {},      \* <<bar, inv, ret>> of every priority change that returned while the container was live
   stopReq  |-> FALSE,    \* the program asked for cancellation / Shutdown
   closing  |-> FALSE,    \* some Wait has passed its barrier and is cancelling the container
   waitInv  |-> 0,
@@ -63,6 +65,10 @@ Init0 == [
   waitAt   |-> 0,        \* seq of the first return of Wait
   writes   |-> <<>>,     \* Progress.Write calls: [line, inv, ret, ok]
   texts    |-> <<>>,     \* text lines in the order the output shows them: [line, frame]
+  nreq     |-> 0,        \* render requests the refresh listener has set out to hand to the container
+  ncyc     |-> 0,        \* render cycles begun
+  topen    |-> 0,        \* lines the output has begun and not yet ended with a line feed
+  wpartial |-> FALSE,    \* a line whose text was accepted and whose line feed was rejected (the container ended in between)
   fmts     |-> <<>>,     \* width exchanges of the frame being drawn
   final    |-> EmptyF,   \* bar -> getter result read after the container was done
   listens  |-> EmptyF,   \* decorator -> number of OnShutdown calls
@@ -177,10 +183,27 @@ FrameRules(s, e) ==
   \*      complete line its extender wrote); the programs keep every frame within the height limit
   \o (LET short == {i \in DOMAIN gs : gs[i].b \in DOMAIN s.bars /\ gs[i].ext # s.bars[gs[i].b].ext}
       IN IF short # {} THEN <<B("C04,C03,C18", "row-group-incomplete", e, ToString({gs[i].b : i \in short}))>> ELSE <<>>)
+  \* C03: the decorations of a row match the state the row reports: the message of the outermost wrapper that
+  \*      reacts to that state stands in for the decorator, otherwise the decorator itself is drawn
+  \o (LET Wr(b, d) == LET ws == {i \in DOMAIN s.bars[b].wraps : s.bars[b].wraps[i].d = d}
+                      IN IF ws = {} THEN <<>> ELSE s.bars[b].wraps[CHOOSE i \in ws : TRUE].w
+          Reacts(w, fl) == \/ (w = "oncomplete" /\ fl = "C") \/ (w = "onabort" /\ fl = "A")
+                           \/ (w = "either" /\ fl \in {"C", "A"})
+          Sfx(w) == IF w = "oncomplete" THEN "C" ELSE IF w = "onabort" THEN "A" ELSE "E"
+          Want(b, d, fl) == LET w == Wr(b, d)
+                                hit == {m \in DOMAIN w : Reacts(w[m], fl)}
+                            IN IF hit = {} THEN "" ELSE Sfx(w[MaxOf(hit)])     \* wrappers are listed innermost first
+          Toks(g) == [i \in 1..(Len(g.pre) + Len(g.app)) |-> IF i <= Len(g.pre) THEN g.pre[i] ELSE g.app[i - Len(g.pre)]]
+          odd == {i \in DOMAIN gs : gs[i].b \in DOMAIN s.bars /\ gs[i].fl \in {"-", "C", "A"} /\
+                     \E n \in DOMAIN Toks(gs[i]) : Toks(gs[i])[n].sfx # Want(gs[i].b, Toks(gs[i])[n].d, gs[i].fl)}
+      IN IF odd # {} THEN <<B("C03", "decoration-does-not-match-state", e, ToString({gs[i].b : i \in odd}))>> ELSE <<>>)
   \* C07: no row wider than the terminal
   \o (IF s.cfg.width > 0 /\ e.maxw > s.cfg.width THEN <<B("C07", "row-too-wide", e, ToString(e.maxw))>> ELSE <<>>)
   \* C04/C13: grammar of a frame
   \o (IF e.malformed # <<>> THEN <<B("C13,C04,C18", "malformed-frame", e, ToString(e.malformed))>> ELSE <<>>)
+  \* C13: the bytes of the text are the bytes written: a line feed ends a line that was begun, nothing else
+  \*      (a container with a render delay discards what is written before the delay ends: not judged)
+  \o (IF s.topen + e.ttok - e.tnl < 0 /\ ~s.cfg.delay THEN <<B("C13", "text-bytes-altered", e, "line feed that nobody wrote")>> ELSE <<>>)
   \* C03: nothing is written after Wait has returned
   \o (IF s.waitAt # 0 THEN <<B("C03", "write-after-wait", e, "frame")>> ELSE <<>>)
   \* C15: no frame after a render error
@@ -233,7 +256,8 @@ OrderRules(s, e) ==
       MaybePopping(k, b) == b \in DOMAIN s.bars /\ Poppable(s, b) /\ LastOf(b) = k
       Popping(k, b) == MaybePopping(k, b) /\ (k < Len(F) \/ FinalRendered(s))
       \* a priority change that returned after the bar's previous frame and before its pop frame
-      PrioRace(k, b) == b \in DOMAIN s.prioAt /\ k > 1 /\ s.prioAt[b] > F[k - 1].seq /\ s.prioAt[b] < F[k].seq
+      \* (a call takes effect somewhere between its invocation and its return)
+      PrioRace(k, b) == k > 1 /\ \E c \in s.prioCalls : c[1] = b /\ c[2] < F[k].seq /\ c[3] > F[k - 1].seq
       IsSucc(b) == b \in DOMAIN s.bars /\ s.bars[b].after # ""
       Badk(succ) == {k \in DOMAIN F :
                  /\ ~F[k].exempt
@@ -289,13 +313,15 @@ FinalRules(s, e) ==
           okw == {i \in DOMAIN W : W[i].ok}
           lost == {i \in okw : Cnt(W[i].line) = 0}
           dup  == {i \in DOMAIN W : Cnt(W[i].line) > 1}
-          ghost == {i \in DOMAIN W : ~W[i].ok /\ W[i].ret # 0 /\ Cnt(W[i].line) > 0}
+          ghost == {i \in DOMAIN W : ~W[i].ok /\ ~W[i].part /\ W[i].ret # 0 /\ Cnt(W[i].line) > 0}
           Pos(i) == CHOOSE j \in DOMAIN T : T[j].line = W[i].line
           swapped == {p \in okw \X okw : /\ W[p[1]].ret < W[p[2]].inv
                                         /\ Cnt(W[p[1]].line) = 1 /\ Cnt(W[p[2]].line) = 1
                                         /\ Pos(p[1]) > Pos(p[2])}
       IN (IF lost # {} /\ NormalEnd(s) /\ s.cfg.refresh = "auto" /\ s.renderStarted
           THEN <<B("C13", "text-lost", e, ToString({W[i].line : i \in lost}))>> ELSE <<>>)
+         \o (IF s.topen # 0 /\ ~s.cfg.delay /\ ~s.wpartial /\ lost = {} /\ NormalEnd(s) /\ s.cfg.refresh = "auto" /\ s.renderStarted
+             THEN <<B("C13", "text-bytes-altered", e, "line without its line feed")>> ELSE <<>>)
          \o (IF dup # {} THEN <<B("C13", "text-duplicated", e, ToString({W[i].line : i \in dup}))>> ELSE <<>>)
          \o (IF ghost # {} THEN <<B("C13", "rejected-text-emitted", e, ToString({W[i].line : i \in ghost}))>> ELSE <<>>)
          \o (IF swapped # {} THEN <<B("C13", "text-out-of-order", e, ToString(swapped))>> ELSE <<>>))
@@ -324,7 +350,7 @@ FinalRules(s, e) ==
   \* C16
   \o (IF e.nleaks # 0
       THEN <<B(IF s.fault THEN "C16,C15" ELSE "C16", "goroutine-leak" \o (IF s.detached # {} THEN "/detached-push"
-                                           ELSE IF s.fault /\ SyncBars(s) # {} THEN "/render-error-during-width-sync"
+                                           ELSE IF s.fault /\ SyncBars(s) # {} /\ e.allfmt THEN "/render-error-during-width-sync"
                                            ELSE ""), e, ToString(e.leaks))>>
       ELSE <<>>)
   \* C15: the error is reported exactly once
@@ -350,12 +376,24 @@ GetRules(s, e) ==
                                      \/ s.final[e.b].aborted # e.aborted)
       THEN <<B("C02", "final-values-changed", e, e.b)>> ELSE <<>>)
 
+(* a priority change has returned *)
+WithPrioCall(s, e) == [s EXCEPT !.prioCalls = IF <<e.c, e.i>> \in DOMAIN s.prioInv /\ s.doneAt = 0
+                                               THEN @ \cup {<<e.b, s.prioInv[<<e.c, e.i>>], e.seq>>} ELSE @]
+PrioReturned(s, e) ==
+         \* honoured unless the bar has already left the display
+         IF e.b \in s.gone \/ s.doneAt # 0 THEN s
+         ELSE IF s.stopReq \/ s.closing
+              THEN [s EXCEPT !.prioLost = TRUE,   \* it may or may not have been applied
+                             !.prioAt = IF e.b \in DOMAIN @ THEN [@ EXCEPT ![e.b] = e.seq] ELSE @ @@ (e.b :> e.seq)]
+         ELSE [s EXCEPT !.prio[e.b] = e.n, !.lazy = @ \/ e.flag,
+                        !.prioAt = IF e.b \in DOMAIN @ THEN [@ EXCEPT ![e.b] = e.seq] ELSE @ @@ (e.b :> e.seq)]
+
 Step(s, e) ==
   CASE e.ev = "begin" ->
          [Init0 EXCEPT !.tr = e.tr, !.cfg = e.cfg, !.family = e.family, !.renderStarted = ~e.cfg.delay]
     [] e.ev = "inv" /\ e.op = "add" ->
          [s EXCEPT !.bars = @ @@ (e.b :> [total |-> e.total, rm |-> e.rm, nopop |-> e.nopop, after |-> e.after,
-                                          hasprio |-> e.hasprio, prio |-> e.prio, listens |-> e.listens, ewmas |-> e.ewmas,
+                                          hasprio |-> e.hasprio, prio |-> e.prio, listens |-> e.listens, ewmas |-> e.ewmas, wraps |-> e.wraps,
                                           npre |-> e.npre, trim |-> e.trim, nsync |-> e.psync + e.async, ext |-> e.ext,
                                           inv |-> e.seq, ret |-> 0, ok |-> FALSE])]
     [] e.ev = "ret" /\ e.op = "add" ->
@@ -365,14 +403,8 @@ Step(s, e) ==
                    !.lateSucc = IF s.bars[e.b].after \in DOMAIN s.termCnt /\ s.termCnt[s.bars[e.b].after] >= 2
                                 THEN @ \cup {e.b} ELSE @,
                    !.prio = @ @@ (e.b :> IF s.bars[e.b].hasprio THEN s.bars[e.b].prio ELSE Len(s.created))]
-    [] e.ev = "ret" /\ e.op = "prio" /\ e.b \in DOMAIN s.prio ->
-         \* honoured unless the bar has already left the display
-         IF e.b \in s.gone \/ s.doneAt # 0 THEN s
-         ELSE IF s.stopReq \/ s.closing
-              THEN [s EXCEPT !.prioLost = TRUE,   \* it may or may not have been applied
-                             !.prioAt = IF e.b \in DOMAIN @ THEN [@ EXCEPT ![e.b] = e.seq] ELSE @ @@ (e.b :> e.seq)]
-         ELSE [s EXCEPT !.prio[e.b] = e.n, !.lazy = @ \/ e.flag,
-                        !.prioAt = IF e.b \in DOMAIN @ THEN [@ EXCEPT ![e.b] = e.seq] ELSE @ @@ (e.b :> e.seq)]
+    [] e.ev = "inv" /\ e.op = "prio" -> [s EXCEPT !.prioInv = (<<e.c, e.i>> :> e.seq) @@ @]
+    [] e.ev = "ret" /\ e.op = "prio" /\ e.b \in DOMAIN s.prio -> PrioReturned(WithPrioCall(s, e), e)
     [] e.ev = "ret" /\ e.op = "abort" /\ s.doneAt = 0 ->
          [s EXCEPT !.dropped = IF e.flag THEN @ \cup {e.b} ELSE @,
                    !.aborts = IF s.stopReq THEN @
@@ -388,10 +420,11 @@ Step(s, e) ==
          [s EXCEPT !.waitAt = IF @ = 0 THEN e.seq ELSE @, !.doneAt = IF @ = 0 THEN e.seq ELSE @]
     [] e.ev = "ret" /\ e.op = "shutdown" -> [s EXCEPT !.doneAt = IF @ = 0 THEN e.seq ELSE @]
     [] e.ev = "inv" /\ e.op = "write" ->
-         [s EXCEPT !.writes = Append(@, [line |-> e.line, inv |-> e.seq, ret |-> 0, ok |-> FALSE, c |-> e.c])]
+         [s EXCEPT !.writes = Append(@, [line |-> e.line, inv |-> e.seq, ret |-> 0, ok |-> FALSE, part |-> FALSE, c |-> e.c])]
     [] e.ev = "ret" /\ e.op = "write" ->
          LET i == CHOOSE i \in DOMAIN s.writes : s.writes[i].line = e.line IN
-         [s EXCEPT !.writes[i].ret = e.seq, !.writes[i].ok = (e.err = "" /\ e.full)]
+         [s EXCEPT !.writes[i].ret = e.seq, !.writes[i].ok = (e.err = "" /\ e.full),
+                   !.writes[i].part = e.partial, !.wpartial = @ \/ e.partial]
     [] e.ev = "ret" /\ e.op = "get" ->
          [s EXCEPT !.compSeen = IF e.completed THEN @ \cup {e.b} ELSE @,
                    !.compShown = IF e.completed THEN @ \cup {e.b} ELSE @,
@@ -401,7 +434,8 @@ Step(s, e) ==
                              THEN @ @@ (e.b :> [cur |-> e.cur, completed |-> e.completed, aborted |-> e.aborted,
                                                 running |-> e.running])
                              ELSE @]
-    [] e.ev = "cycle" -> [s EXCEPT !.cyc = e.seq, !.fmts = <<>>]
+    [] e.ev = "cycle" -> [s EXCEPT !.cyc = e.seq, !.fmts = <<>>, !.ncyc = @ + 1]
+    [] e.ev = "tickfwd" -> [s EXCEPT !.nreq = @ + 1]
     [] e.ev = "fmtret" -> [s EXCEPT !.fmts = Append(@, e)]
     [] e.ev = "ewma" -> [s EXCEPT !.ewmas = IF e.d \in DOMAIN @ THEN [@ EXCEPT ![e.d] = @ + 1] ELSE @ @@ (e.d :> 1)]
     [] e.ev = "out" ->
@@ -432,6 +466,7 @@ Step(s, e) ==
                    !.termSeen = @ \cup {e.groups[i].b : i \in {j \in DOMAIN e.groups : Terminal(e.groups[j].fl)}},
                    !.compShown = @ \cup {e.groups[i].b : i \in {j \in DOMAIN e.groups : e.groups[j].fl = "C"}},
                    !.texts = @ \o [i \in DOMAIN e.text |-> [line |-> e.text[i], frame |-> k]],
+                   !.topen = @ + e.ttok - e.tnl,
                    !.detachedF = {},
                    !.termCnt = LET tb == {e.groups[i].b : i \in {j \in DOMAIN e.groups : Terminal(e.groups[j].fl)}}
                                IN [b \in DOMAIN @ \cup tb |-> (IF b \in DOMAIN @ THEN @[b] ELSE 0) + (IF b \in tb THEN 1 ELSE 0)],
@@ -457,13 +492,19 @@ Check(s, e) ==
          (IF s.waitAt # 0 /\ s.writes[i].inv > s.waitAt /\ (e.err # "ErrDone" \/ e.wn # 0)
           THEN <<B("C13", "late-write", e, e.err)>> ELSE <<>>)
          \o (IF e.err = "" /\ ~e.full THEN <<B("C13", "short-write", e, e.line)>> ELSE <<>>)
+    \* C05/C01: a render request the container has taken is followed by a render cycle - with or without a render
+    \* delay, since the cycles are what lets finished bars leave.  The listener hands over one request at a time, so
+    \* at most one request is waiting to be taken and one taken whose cycle has not begun.
+    [] e.ev = "tickfwd" ->
+         IF ~s.fault /\ s.nreq + 1 - s.ncyc > 2
+         THEN <<B("C05,C01", "render-request-ignored", e, ToString(<<s.nreq + 1, s.ncyc>>))>> ELSE <<>>
     [] e.ev = "onshutdown" ->
          \* C14: listeners are notified before Wait returns
          IF s.waitAt # 0 THEN <<B("C14", "listener-after-wait", e, e.d)>> ELSE <<>>
     [] e.ev = "hang" ->
          LET why == IF s.detached # {} THEN "/detached-push"
                     ELSE IF Orphans(s) # {} /\ Orphans(s) \subseteq Doomed(s) THEN "/orphaned-successor"
-                    ELSE IF s.fault /\ SyncBars(s) # {} THEN "/render-error-during-width-sync"
+                    ELSE IF s.fault /\ SyncBars(s) # {} /\ e.infmt THEN "/render-error-during-width-sync"
                     ELSE ""
              ps  == "C01,C02" \o (IF s.fault THEN ",C15" ELSE "") \o (IF Orphans(s) # {} THEN ",C17" ELSE "")
                               \o (IF s.stopReq THEN ",C14" ELSE "")
@@ -481,6 +522,26 @@ Check(s, e) ==
     [] e.ev = "quiesce" -> FinalRules(s, e) \o OrderRules(s, e)
     [] OTHER -> <<>>
 
+(* A container so narrow that decorators are cut and rows cannot be told apart is judged by the rules that do
+   not read row contents: liveness, crashes, leaks, notifications, widths, what the getters and calls return. *)
+NarrowRules == {"hang", "hang/detached-push", "hang/orphaned-successor", "hang/render-error-during-width-sync",
+                "panic", "panic/detached-push", "goroutine-leak", "goroutine-leak/detached-push",
+                "goroutine-leak/render-error-during-width-sync", "listener-count", "listener-after-wait",
+                "notifier-count", "row-too-wide", "decorator-width-report", "write-after-wait", "frame-after-error",
+                "debug-lines", "spurious-debug", "running-after-done", "not-exactly-one-terminal-state",
+                "completed-and-aborted", "completed-unstable", "aborted-unstable", "late-add", "late-write",
+                "short-write", "final-values-changed", "data-race", "ewma-samples-differ-between-decorators",
+                "refill-exceeds-counter", "render-request-ignored"}
+(* With a render delay the frames drawn before the delay ends are discarded together with the text they carry: which
+   bars have already left, and which lines were lost, cannot be told from the output. *)
+DelayBlind == {"missing", "missing/detached-push", "never-shown", "never-shown/detached-push", "last-frame-missing",
+               "last-frame-missing/detached-push", "notifier-list", "notifier-list/detached-push", "text-lost",
+               "text-bytes-altered", "queued-never-shown", "successor-not-shown", "last-row-not-final",
+               "popped-not-on-top", "order", "order/successor-position"}
+Applicable(s, q) == IF s.cfg.narrow THEN SelectSeq(q, LAMBDA b : b.r \in NarrowRules)
+                    ELSE IF s.cfg.delay THEN SelectSeq(q, LAMBDA b : b.r \notin DelayBlind)
+                    ELSE q
+
 ---------------------------------------------------------------------------
 Init == l = 1 /\ st = Init0 /\ bad = <<>>
 
@@ -488,7 +549,7 @@ Next ==
   \/ /\ l <= Len(Trace)
      /\ LET e == Trace[l] IN
           /\ st' = Step(st, e)
-          /\ bad' = bad \o Check(st, e)
+          /\ bad' = bad \o Applicable(st, Check(st, e))
      /\ l' = l + 1
   \/ /\ l = Len(Trace) + 1
      /\ JsonSerialize(IOEnv.OBS_OUT, bad)
